@@ -20,6 +20,8 @@ sys_path_here = os.path.dirname(os.path.abspath(__file__))
 import sys
 sys.path.insert(0, sys_path_here)
 import factgen  # noqa: E402
+import declscan  # noqa: E402
+import coverage  # noqa: E402
 
 NEEDED = ["multidim_index_sequence2_flatten__v2ul", "multidim_index_sequence2_reshape__ul",
           "multidim_index_sequence3_flatten__v3ul", "multidim_index_sequence3_reshape__ul",
@@ -103,6 +105,61 @@ def first_failing_lemma(ctx):
         if name and (f, name) not in out:
             out.append((f, name))
     return out
+
+
+def inventory_tables(ctx):
+    """every declaration of the three anchored headers (clang AST, this run) must be in coverage.COVER or coverage.EXCLUDE,
+    and every table entry must still be declared with that signature: fail closed otherwise"""
+    try:
+        keys = declscan.declarations(ctx.repo, ctx.include_dir(), os.path.join(ctx.build, "scan"))
+    except Exception as ex:
+        ctx.broken.append("inventory: declaration scan of the anchored headers failed: %s" % str(ex)[-300:])
+        return None
+    for k in sorted(keys, key=lambda k: (k.split()[0], keys[k])):
+        if k not in coverage.COVER and k not in coverage.EXCLUDE:
+            ctx.broken.append("inventory: %s (line %s) is declared but neither covered nor excluded in props/C17/coverage.py "
+                              "(new function / overload / member?)" % (k, keys[k]))
+    for k in list(coverage.COVER) + list(coverage.EXCLUDE):
+        if k not in keys:
+            ctx.broken.append("inventory: table entry no longer declared (removed or signature changed): %s" % k)
+    return keys
+
+
+def case_kinds(case):
+    """the execution-count keys of a case (see coverage.py)"""
+    t = case.split()
+    k = t[0]
+    out = [k]
+    if k == "VA":
+        out = ["VA:" + t[1]]
+        a = [int(x) for x in t[2:]]
+        d, p, b, e = a[:3], a[4:10], a[10:13], a[13:16]
+        size = {"SB": [p[3 + q] - p[q] for q in range(3)], "MS": [d[0], d[1], p[0]], "RP": p[:3]}.get(t[1], d)
+        if b == [0, 0, 0] and e == size:
+            out.append("FULL")
+    elif k == "VR":
+        a = [int(x) for x in t[1:]]
+        if a[4:7] == [0, 0, 0] and a[7:10] == a[:3]:
+            out.append("FULL")
+    return out
+
+
+def inventory_counts(ctx, keys, executed):
+    if keys is None:
+        return
+    inv = {}
+    for k, (kinds, how) in coverage.COVER.items():
+        n = sum(executed.get(x, 0) for x in kinds)
+        inv[k] = {"executed_cases": n, "case_kinds": list(kinds), "covered_by": how, "line": keys.get(k)}
+        if n == 0 and k in keys:
+            ctx.broken.append("inventory: covered declaration executed by zero cases in this run: %s (kinds %s)" % (k, ",".join(kinds)))
+    for k, why in coverage.EXCLUDE.items():
+        inv[k] = {"executed_cases": 0, "excluded": why, "line": keys.get(k)}
+    for b in ctx.broken:
+        if b.startswith("inventory:"):
+            ctx.log(b[:400])
+    ctx.cov["inventory"] = inv
+    ctx.cov["inventory_summary"] = {"declared": len(keys), "covered": len(coverage.COVER), "excluded": len(coverage.EXCLUDE)}
 
 
 # ------------------------------------------------------------------ python oracle (independent, big integers)
@@ -200,6 +257,11 @@ def oracle(case):
         dx, dy = a
         l = jn("%d.%d" % (i % dx, i // dx) for i in range(dx * dy))
         return "post %s pre %s rf %s ret 1.1" % (l, l, l)
+    if k in ("IO3", "IO2"):
+        nd = 3 if k == "IO3" else 2
+        d, aa, bb = a[:nd], a[nd], a[nd + 1]
+        cur = [0, aa, aa + bb, aa + 2 * bb, aa + bb, aa, aa - 1, aa - 2, aa - 2]
+        return "D %s C %s E 1%d00" % (".".join(str(x) for x in d), jn(cur), 1 if aa - 2 == bb else 0)
     if k == "AR":
         d = tuple(a[:3])
         ar = Arr(d)
@@ -296,7 +358,7 @@ def first_diff(obs, req):
 FIELD_NAMES = {"T": "total_indices()", "P": "longProduct(dims)", "F": "flatten(coords)", "R": "reshape(i)", "L": "longIndex(idx, dims)",
                "C": "coordsOf(i, dims)", "G": "get(where)", "N": "numElements()", "X": "indexOf(pos)", "S": "size()",
                "GF": "Array3DAccessor<int,float>::get", "GB": "Array3DAccessor<int,unsigned char>::get", "RAW": "value[expected linear index]",
-               "G0": "get(-3,-3,-3)", "R": "getValueRange(begin, end) through the adaptor", "GM": "get(where outside size())", "post": "it++ traversal", "pre": "++it traversal", "rf": "range-for traversal", "ret": "++it result",
+               "G0": "get(-3,-3,-3)", "R": "getValueRange(begin, end) through the adaptor", "GM": "get(where outside size())", "D": "dimensions()", "C": "current() after jump_to / + / - / --", "E": "operator== / !=", "post": "it++ traversal", "pre": "++it traversal", "rf": "range-for traversal", "ret": "++it result",
                "FE": "for_each(lower, upper) visit list", "VR": "getValueRange(begin, end)"}
 
 
@@ -395,6 +457,15 @@ def gen_cases(ctx, extra):
         add(B, "IT3 %d %d %d" % d)
     for d in itertools.product(range(8), repeat=2):
         add(B, "IT2 %d %d" % d)
+    # ---- the other iterator members
+    for d in ((2, 3, 2), (1, 1, 1), (4, 1, 3)):
+        for aa in range(2, 9):
+            for bb in range(0, aa - 1):
+                add(B, "IO3 %d %d %d %d %d" % (d + (aa, bb)))
+    for d in ((3, 2), (1, 1), (2, 5)):
+        for aa in range(2, 9):
+            for bb in range(0, aa - 1):
+                add(B, "IO2 %d %d %d %d" % (d + (aa, bb)))
     # ---- ActualArray3D: clear, sets in random order with overwrites, then get over [-2, d+1]^3
     for d in itertools.product(range(1, 6), repeat=3):
         cs = box(0, d[0], 0, d[1], 0, d[2])
@@ -468,6 +539,8 @@ def nontrivial(case):
         a = [int(x) for x in t[2:]]
         return all(a[10 + q] < a[13 + q] for q in range(3))
     k, a = t[0], [int(x) for x in t[1:]]
+    if k in ("IO2", "IO3"):
+        return a[-1] > 0
     if k in ("F2", "IT2"):
         return a[0] != a[1] and a[0] * a[1] > 1
     if k in ("F3", "IT3", "AR"):
@@ -519,6 +592,7 @@ def run(ctx):
     t0 = time.time()
     regenerate(ctx)
     regenerate_facts(ctx)
+    inv_keys = inventory_tables(ctx)
     thm = ctx.coq_check(("Properties.v", "PropertiesFacts.v"), timeout=600)
     failing = first_failing_lemma(ctx)
     if failing:
@@ -551,6 +625,7 @@ def run(ctx):
     ctx.cov["case_histogram"] = hist
     ctx.log("cases: %d arithmetic, %d loops/arrays (proofs %s)" % (len(A), len(B), "ok" if proofs_ok else "BROKEN -> wider search"))
 
+    executed = {}        # execution-count key -> cases actually run by the harness
     viol = {}            # kind -> list of (case, detail, observed, required)
     corr = []            # correspondence differences where the implementation satisfies the oracle
     finding_hits = []
@@ -574,6 +649,8 @@ def run(ctx):
             if i >= len(hl):
                 break
             h = hl[i]
+            for ck in case_kinds(c):
+                executed[ck] = executed.get(ck, 0) + 1
             req = oracle(c)
             kind = c.split()[0]
             ok = True
@@ -615,6 +692,8 @@ def run(ctx):
             if ok and req is not None and nontrivial(c):
                 ctx.nontriv(c)
     ctx.cov.update(stats)
+    ctx.cov["executed_case_kinds"] = executed
+    inventory_counts(ctx, inv_keys, executed)
     # ---- report
     for kind, lst in sorted(viol.items()):
         lst.sort(key=lambda t: size_key(t[0]))
